@@ -19,7 +19,8 @@ ID = 'C05'
 LEVEL = 'exploration'
 ANCHORS = ['bitcoinlib/transactions.py', 'bitcoinlib/scripts.py', 'bitcoinlib/keys.py', 'bitcoinlib/encoding.py', 'bitcoinlib/networks.py']
 DEPS = ()
-RULE = ('cases: every network of the golden table x {P2PKH, P2SH, P2WPKH, P2WSH, P2TR} x random/edge payloads, witness '
+RULE = ('cases: every network of the golden table x {P2PKH, P2SH, P2WPKH, P2WSH, P2TR} x random/edge payloads (all-zero, all-ff, leading '
+        'zeros, payloads that read as a script / witness-program header), witness '
         'versions 0..16 x program lengths 2..40, base58 payload lengths != 20, every ordered network pair for the '
         'foreign-network clause; sources: address string, Address.parse object, Address(hashed_data/data) object, '
         'HDKey, Key.address_obj, public key, hash+type, raw script; entry points Output(...) and Transaction.add_output; '
@@ -36,7 +37,8 @@ ASSUMPTIONS = ['"different network" = the address version byte / HRP is not one 
                'script -> address for non-standard witness programs: reporting no address (or raising on .address) is acceptable, a different address is not; '
                'the type label is judged only for the five standard types',
                'P2PK / bare multisig / nulldata outputs are not standard destinations of the statement: only their script bytes are checked when built from a public key']
-EXHAUSTIVE = ['networks x 5 standard types (string source, both entry points) in every quick run',
+EXHAUSTIVE = ['header-like payloads: first byte in {00, 51..60, 76, a9, 6a, 4c} x second byte in {len-2, 14, 20} x 5 standard types, both directions + hash / Address(hashed_data) sources, in every quick run',
+              'networks x 5 standard types (string source, both entry points) in every quick run',
               'witness versions 0..16 x program lengths {20, 32} on every network in every quick run',
               'ordered network pairs x 5 standard types for the foreign-network clause (string source) in every quick run']
 
@@ -632,7 +634,26 @@ def replay(case, col):
     run_case(case, col)
 
 
+# payloads that themselves look like the start of a serialised script / witness program: <OP_0|OP_1..OP_16|OP_DUP|OP_HASH160|
+# OP_RETURN|PUSHDATA1> followed by a byte that reads as a plausible push length.  A hash is arbitrary data, so these are ordinary
+# members of the input space for every 20/32(/40)-byte payload; content-sniffing code paths treat them differently.
+HEADER_FIRST = (0x00,) + tuple(range(0x51, 0x61)) + (0x76, 0xa9, 0x6a, 0x4c)
+
+
+def header_seconds(n):
+    return (n - 2, 0x14, 0x20, n - 1, n, n - 3, 0x12, 0x1e, 0x26, 0xa9, 0x00)
+
+
+def _headerlike(rnd, n, first=None, second=None):
+    first = rnd.choice(HEADER_FIRST) if first is None else first
+    second = rnd.choice(header_seconds(n)) if second is None else second
+    return bytes([first, second & 0xff]) + rnd.randbytes(n - 2)
+
+
 def _payload(rnd, n):
+    r = rnd.random()
+    if r < 0.15 and n >= 4:
+        return _headerlike(rnd, n)
     r = rnd.random()
     if r < 0.08:
         return bytes(n)
@@ -686,9 +707,30 @@ def run_shard(spec, col):
         for v in range(17):
             for n in (20, 32):
                 if mine():
-                    p = rnd.randbytes(n)
+                    p = rnd.randbytes(n) if rnd.random() < 0.6 else _headerlike(rnd, n)
                     judge_dest({'kind': 'dest', 'network': net, 'enc': 'segwit', 'witver': v, 'payload': p.hex(), 'via': rnd.choice(['output', 'add_output'])}, col)
                     judge_script({'kind': 'script', 'network': net, 'spk': chain.script_witness(v, p).hex(), 'strict': rnd.random() < 0.5}, col)
+    # ---- (2b) payloads that look like a script / witness-program header, every standard type, both directions and all hash-based sources
+    for first in HEADER_FIRST:
+        for t in STD:
+            n = 32 if t in ('p2wsh', 'p2tr') else 20
+            for second in (n - 2, 0x14, 0x20):
+                if not mine():
+                    continue
+                net = rnd.choice(NETS)
+                via = rnd.choice(['output', 'add_output'])
+                p = _headerlike(rnd, n, first, second)
+                judge_dest(dict(dest_for(t, p), kind='dest', network=net, via=via, src=rnd.choice(['string', 'string', 'addr_parse'])), col)
+                judge_script({'kind': 'script', 'network': net, 'spk': ref_script(dest_for(t, p)).hex(), 'via': via, 'strict': rnd.random() < 0.5}, col)
+                judge_other({'kind': 'hash', 'network': net, 'type': t, 'payload': p.hex(), 'via': 'output'}, col)
+                judge_other({'kind': 'addrobj', 'ctor': 'hashed', 'network': net, 'type': t, 'payload': p.hex(), 'via': via}, col)
+    for v in range(1, 17):                                    # future witness versions with 20/32/40-byte header-like programs
+        for n in (20, 32, 40):
+            if mine():
+                net = rnd.choice(NETS)
+                p = _headerlike(rnd, n, rnd.choice(HEADER_FIRST[:17]), n - 2)
+                judge_dest({'kind': 'dest', 'network': net, 'enc': 'segwit', 'witver': v, 'payload': p.hex(), 'via': 'output', 'src': rnd.choice(['string', 'addr_parse'])}, col)
+                judge_script({'kind': 'script', 'network': net, 'spk': chain.script_witness(v, p).hex(), 'strict': False}, col)
     # ---- (3) every ordered network pair x standard type: address of M used on N (string source; foreign or shared prefix)
     for N in NETS:
         for M in NETS:
@@ -716,7 +758,7 @@ def run_shard(spec, col):
             n = rnd.choice([2, 3, 4, 5, 16, 19, 20, 21, 31, 32, 33, 34, 39, 40, rnd.randint(2, 40)])
             if v == 0 and n not in (20, 32):
                 n = rnd.choice([20, 32])                     # BIP173: v0 programs are 20 or 32 bytes (anything else is not an address)
-            p = rnd.randbytes(n)
+            p = rnd.randbytes(n) if (n not in (20, 32, 40) or rnd.random() < 0.7) else _headerlike(rnd, n)
             if n not in (20, 32, 40) and v >= 1 and rnd.random() < (0.5 if n <= 4 else 0.15):
                 p = p[:1] + bytes([n - 2]) + p[2:]           # a program whose 2nd byte equals the number of bytes after it (looks like <ver><len> header)
             elif n in (33, 34) and v >= 1 and rnd.random() < 0.5:
